@@ -18,7 +18,13 @@ def run(R, cfg, over=None):
         return all_(H.action_legal(st, act))
 
     def obl(st, act, ns, ts):
-        out = [("C(S'): " + n, v) for n, v in (H.constraints(ns) or [])]
+        if hasattr(H, "constraints_succ"):
+            # optional hook: frame + local-delta lemmas over (S, a, S') that together with C(S) imply C(S'), for constraints
+            # whose direct statement on S' is an existential the solver cannot discharge (FlatPack: "the cells carrying a
+            # block's number are a rotated copy of it"); the implication itself is discharged in H.kernels_c06
+            out = [("C(S) => C(S') lemma: " + n, v) for n, v in H.constraints_succ(st, act, ns, ts)]
+        else:
+            out = [("C(S'): " + n, v) for n, v in (H.constraints(ns) or [])]
         comp = H.complete(ns, ts)
         if comp is not None:
             done, obs = comp
@@ -27,7 +33,9 @@ def run(R, cfg, over=None):
         return out
     if H.BMC:
         from checks import bmc
-        return bmc.run(R, H, obl, legal_only=True)
+        # harness opt-in BMC_EMITTED: from the 2nd step on "mask-respecting" means respecting the mask the environment
+        # EMITTED with the previous timestep (the literal property; exposes a wrong/stale mask as a constraint violation)
+        return bmc.run(R, H, obl, legal_only=True, emitted=getattr(H, "BMC_EMITTED", False))
     sp = D.build_step(R, H)
     pre_c = [v.z() for _, v in (H.constraints(sp.st) or [])]
     D.prove_list(R, sp, obl, extra_A=pre_c, guard=legal)
@@ -37,13 +45,18 @@ def run(R, cfg, over=None):
         R.reach("completion reachable in one step", sp.A + pre_c, (legal(sp.st, sp.act, sp.ns, sp.ts) & comp[0] & (vs(sp.ts.step_type) == 2)).z())
     # two consecutive steps where the second action only has to respect the mask the environment EMITTED with the
     # first timestep (this is what a mask-respecting agent sees): exposes stale or wrong masks as constraint violations
-    if H.MASKED and getattr(H, "TWO_STEP", True):
+    two = getattr(H, "TWO_STEP", True)
+    if callable(two):   # harness method TWO_STEP(tier) -> bool: e.g. only in the thorough tier / only at the small size
+        two = two(R.tier)
+    if H.MASKED and two:
         from checks import bmc
 
         def init(ctx):
             st, pre = H.sym_state(ctx)
             return st, list(pre) + [v.z() for _, v in H.inv(st, ctx) if not (v.conc and bool(v))] + [v.z() for _, v in (H.constraints(st) or [])]
         bmc.run(R, H, obl, legal_only=True, depth=2, init=init, emitted=True, prefix="emitted-mask play: ")
+    if hasattr(H, "kernels_c06"):
+        H.kernels_c06(R)
 
 
 def jobs(tier, seed):
